@@ -535,12 +535,16 @@ void mv_wait_until_changed(const volatile void * addr, size_t sz) {
   myth_yield();
 }
 
+static size_t mv_req_stacksize;
+void mv_set_default_stacksize(size_t sz) { mv_req_stacksize = sz; }   /* call before mv_start */
+
 void mv_start(int nworkers) {
   if (!mv_sh) mv_sh = &mv_dummy_shared;
   myth_globalattr_t ga[1];
   myth_globalattr_init(ga);
   myth_globalattr_set_n_workers(ga, nworkers);
   myth_globalattr_set_bind_workers(ga, 0);
+  if (mv_req_stacksize) myth_globalattr_set_stacksize(ga, mv_req_stacksize);
   { size_t ss; myth_globalattr_get_stacksize(ga, &ss); lg_defstack = ss; }
   myth_init_ex(ga);
   if (tl_w < 0) finish_verdict(MV_ENGINE_ERROR, "main thread is not a worker after myth_init_ex");
